@@ -177,8 +177,8 @@ func (i *interpreter) mapOrder(n int) []int {
 
 // chooseIndex is a non-solver decision among n alternatives (schedules, map orders).
 func (p *pathCtx) chooseIndex(n int) int {
-	if n <= 1 {
-		return 0
+	if n <= 1 || p.setup {
+		return 0 // setup runs one deterministic schedule
 	}
 	if p.inReplay() {
 		v := p.prefix[p.pos]
